@@ -58,6 +58,20 @@ ExpectedKind(evs) ==
   ELSE "Parsing"
 ExpectErr(op, evs) == Faulty(evs) \/ (op = "parse" /\ ~HasElement(evs))
 
+\* A deep result arrives as a pre-order list of positions [d, n, opt, multi, text, attrs] ("projflat": the JSON reader
+\* refuses documents nested deeper than 255 levels); the schema record is rebuilt from it.
+RECURSIVE BuildTy(_, _)
+BuildTy(fl, i) ==
+  LET RECURSIVE Kids(_, _)
+      Kids(j, acc) ==
+        IF j <= Len(fl) /\ fl[j].d = fl[i].d + 1
+        THEN LET b == BuildTy(fl, j)
+             IN Kids(b.nxt, Append(acc, [n |-> fl[j].n, opt |-> fl[j].opt, multi |-> fl[j].multi, ty |-> b.ty]))
+        ELSE [kids |-> acc, nxt |-> j]
+      k == Kids(i + 1, <<>>)
+  IN [ty |-> [text |-> fl[i].text, attrs |-> fl[i].attrs, kids |-> k.kids], nxt |-> k.nxt]
+ProjOf(r) == IF "projflat" \in DOMAIN r THEN BuildTy(r.projflat, 1).ty ELSE r.proj
+
 Init == l = 1 /\ roots = <<>> /\ cur = [st |-> "none"]
 
 Reset ==
@@ -95,13 +109,15 @@ Call ==
                              /\ \A i \in 1..Len(newroots) : newroots[i].name = newroots[1].name
                              /\ (cur.st = "ok" => cur.indomain)
              IN /\ roots' = newroots
-                /\ cur' = [st |-> "ok", proj |-> r.proj, indomain |-> indomain]
+                /\ cur' = [st |-> "ok", proj |-> ProjOf(r), indomain |-> indomain]
                 /\ (indomain /\ newroots # <<>>) =>
-                      /\ Mode = "C03" => SameModuloOrder(r.proj, TyOf(newroots))
-                      /\ Mode = "C09" => (SameModuloOrder(r.proj, TyOf(newroots)) => r.proj = TyOf(newroots))
-                      /\ Mode = "C01" => \A i \in 1..Len(newroots) : Admits(r.proj, newroots[i])
-                      /\ Mode = "C06" => /\ (cur.st = "ok" => Mono(cur.proj, r.proj))
-                                          /\ ((cur.st = "ok" /\ top = <<>>) => r.proj = cur.proj)
+                      /\ Mode = "C03" => SameModuloOrder(ProjOf(r), TyOf(newroots))
+                      /\ Mode = "C09" => (SameModuloOrder(ProjOf(r), TyOf(newroots)) => ProjOf(r) = TyOf(newroots))
+                      /\ Mode = "C01" => \A i \in 1..Len(newroots) : Admits(ProjOf(r), newroots[i])
+                      /\ Mode = "C06" => /\ (cur.st = "ok" => Mono(cur.proj, ProjOf(r)))
+                                          \* extending yields the schema inferred from the union of all occurrences
+                                          /\ (cur.st = "ok" => SameModuloOrder(ProjOf(r), TyOf(newroots)))
+                                          /\ ((cur.st = "ok" /\ top = <<>>) => ProjOf(r) = cur.proj)
      /\ l' = l + 1
 
 Next == l <= Len(Rec) /\ (Reset \/ Call)
